@@ -21,14 +21,16 @@
 EXTENDS Integers, Sequences, FiniteSets, TLC
 
 CONSTANTS MaxN, Kinds, SFlaws,
+          Bases,    \* trees the grammar starts from (the empty tree, or rule-conforming constructs to be varied)
+          MaxSteps, \* bound on the number of grammar steps from a base
           DUP      \* TRUE: the grammar may also duplicate a sub-tree (used for sampling repeated groups)
 Leaf == Kinds
 TL == {"on", "off", "dur", "del", "uq"}          \* carry topLevelTagGroup
 Time == {"on", "off", "dur", "del"}               \* temporal keys (extra TEMPORAL_TAG_ERROR when misplaced)
 Temporal == {"on", "off"}                          \* Onset / Inset / Offset
 
-VARIABLES n, par, kind, sflaw
-vars == <<n, par, kind, sflaw>>
+VARIABLES n, par, kind, sflaw, steps
+vars == <<n, par, kind, sflaw, steps>>
 
 IsGroup(k) == kind[k] = "g"
 Kids(g) == {k \in 1..n : par[k] = g}
@@ -40,27 +42,41 @@ TreeOK == \A k \in 1..n : par[k] < k /\ (IF par[k] = 0 THEN TRUE ELSE kind[par[k
 \* The generative grammar: an annotation grows by one tag or one (empty) group at a time, at top level or
 \* inside an existing group.  BFS from the empty annotation reaches every tree exactly once; simulation
 \* samples deep ones.
-Init == n = 0 /\ par = <<>> /\ kind = <<>> /\ sflaw \in SFlaws
-AddNode(p, kd) == /\ n < MaxN
+Init == /\ \E b \in Bases : n = Len(b.kind) /\ par = b.par /\ kind = b.kind
+        /\ sflaw \in SFlaws /\ steps = 0
+AddNode(p, kd) == /\ n < MaxN /\ steps < MaxSteps /\ steps' = steps + 1
                   /\ (IF p = 0 THEN TRUE ELSE kind[p] = "g")
                   /\ n' = n + 1 /\ par' = Append(par, p) /\ kind' = Append(kind, kd)
                   /\ UNCHANGED sflaw
-\* copy the sub-tree rooted at k and add the copy as a new sibling of k (a repeated tag or group)
+\* copy the sub-tree rooted at k: as a new sibling of k (a repeated tag or group), or into another group tp
+\* (the same construct, elsewhere).  DupFlat adds a sibling group holding the same leaves without their nesting.
 RECURSIVE Desc(_)
 Desc(k) == {k} \cup UNION {Desc(j) : j \in {x \in 1..n : par[x] = k}}
 Rank(S, j) == Cardinality({x \in S : x <= j})
-DupSubtree(k) == LET S == Desc(k) IN
-                 /\ n + Cardinality(S) <= MaxN
+CopyUnder(k, tp) == LET S == Desc(k) IN
+                 /\ n + Cardinality(S) <= MaxN /\ steps < MaxSteps /\ steps' = steps + 1
+                 /\ tp \notin S
+                 /\ (IF tp = 0 THEN TRUE ELSE kind[tp] = "g")
                  /\ n' = n + Cardinality(S)
                  /\ par' = [i \in 1..(n + Cardinality(S)) |->
                               IF i <= n THEN par[i]
                               ELSE LET j == CHOOSE x \in S : Rank(S, x) = i - n IN
-                                   IF j = k THEN par[k] ELSE n + Rank(S, par[j])]
+                                   IF j = k THEN tp ELSE n + Rank(S, par[j])]
                  /\ kind' = [i \in 1..(n + Cardinality(S)) |->
                               IF i <= n THEN kind[i] ELSE kind[CHOOSE x \in S : Rank(S, x) = i - n]]
                  /\ UNCHANGED sflaw
+DupSubtree(k) == CopyUnder(k, par[k])
+DupFlat(k) == LET L == {x \in Desc(k) : kind[x] # "g"} IN
+              /\ kind[k] = "g" /\ Cardinality(L) >= 2 /\ Cardinality(L) < Cardinality(Desc(k)) - 1
+              /\ n + Cardinality(L) + 1 <= MaxN /\ steps < MaxSteps /\ steps' = steps + 1
+              /\ n' = n + Cardinality(L) + 1
+              /\ par' = [i \in 1..(n + Cardinality(L) + 1) |-> IF i <= n THEN par[i] ELSE IF i = n + 1 THEN par[k] ELSE n + 1]
+              /\ kind' = [i \in 1..(n + Cardinality(L) + 1) |->
+                            IF i <= n THEN kind[i] ELSE IF i = n + 1 THEN "g"
+                            ELSE kind[CHOOSE x \in L : Rank(L, x) = i - n - 1]]
+              /\ UNCHANGED sflaw
 Next == \/ \E p \in 0..n, kd \in Kinds \cup {"g"} : AddNode(p, kd)
-        \/ (DUP /\ \E k \in 1..n : DupSubtree(k))
+        \/ (DUP /\ \E k \in 1..n : DupSubtree(k) \/ DupFlat(k) \/ \E tp \in 0..n : CopyUnder(k, tp))
 Spec == Init /\ [][Next]_vars
 
 \* ---------- structural equality of sub-trees up to sibling order ----------
@@ -113,6 +129,8 @@ Viol == IF sflaw # "none" THEN {<<sflaw, 0>>}
 Codes == {v[1] : v \in Viol}
 Valid == Viol = {}
 Single == Cardinality(Viol) = 1
+\* number of distinct offending places: one misplaced temporal tag is ONE injected violation carrying two codes
+Causes == Cardinality({v[2] : v \in Viol})
 
 \* ---------- model-level properties ----------
 \* a repeated pair is reported wherever the copies sit
